@@ -8,6 +8,8 @@ impl BytesMut {
     #[verifier::external_body]
     pub fn new() -> (r: BytesMut) ensures r@ == Seq::<u8>::empty() { BytesMut { v: Vec::new() } }
     #[verifier::external_body]
+    pub fn with_capacity(n: usize) -> (r: BytesMut) ensures r@ == Seq::<u8>::empty() { BytesMut { v: Vec::with_capacity(n) } }
+    #[verifier::external_body]
     pub fn len(&self) -> (r: usize) ensures r == self@.len(), r <= 0x7fff_ffff_ffff_ffffusize /* Rust allocations never exceed isize::MAX bytes */ { self.v.len() }
     #[verifier::external_body]
     pub fn is_empty(&self) -> (r: bool) ensures r == (self@.len() == 0) { self.v.is_empty() }
